@@ -79,8 +79,9 @@ class Ctx:
             self.functions.add(f"{rel}::{qual}")
 
     def ob(self, rule: str, rel: str, qual: str, node: Optional[ast.AST], desc: str, ok: bool,
-           detail: Any = None, stmt: str = None, trivial: bool = False) -> Obligation:
-        line = getattr(node, "lineno", 0) if node is not None else 0
+           detail: Any = None, stmt: str = None, trivial: bool = False, line: int = None) -> Obligation:
+        if line is None:
+            line = getattr(node, "lineno", 0) if node is not None else 0
         text = stmt if stmt is not None else (norm_stmt(node) if node is not None else "-")
         o = Obligation(rule, f"{rel}::{qual}", text, desc, rel, line, bool(ok), detail, trivial)
         self.obs.append(o)
